@@ -8,6 +8,9 @@ PROPS = {
     'C03': 'rsym.props.c03',
     'C04': 'rsym.props.c04',
     'C06': 'rsym.props.c06',
+    'C07': 'rsym.props.c07',
+    'C08': 'rsym.props.c08',
+    'C09': 'rsym.props.c09',
     'C12': 'rsym.props.c12',
     'C13': 'rsym.props.c13',
     'C14': 'rsym.props.c14',
